@@ -1,6 +1,7 @@
 (** * C02 — published market data always equals the resting orders *)
 From Bourse Require Import Model.Types Model.Map Model.Side Model.Book Model.Obs Spec.RefBook
-  Proofs.Refine Proofs.Volumes Proofs.Views Proofs.Reload Proofs.PosVol Proofs.Uncrossed.
+  Proofs.Refine Proofs.Volumes Proofs.Views Proofs.Reload Proofs.PosVol Proofs.Uncrossed Proofs.MarketInv Proofs.MarketUncrossed.
+From Bourse Require Import Model.Rng Model.Env.
 
 (** [Inv] is the queue invariant [InvQ] (both priority maps are strictly sorted
     and hold exactly the Active orders of their side under their stored keys)
@@ -76,6 +77,26 @@ Theorem c02_never_crossed : forall t0 tick s0 ops s xs,
   fst (bid_ask s) < snd (bid_ask s).
 Proof. exact never_crossed_history. Qed.
 
+(** The same for the environments ([Env] is the one-asset [MarketEnv]): from a market created with
+    trading on, through every operation except disabling trading - submissions with volume >= 1,
+    cancellations, modifications to volumes >= 1, direct operations on one asset, whole steps with
+    any batch in any processing order - every asset keeps [XInv], so on every asset quoted on both
+    sides the best bid is strictly below the best ask. *)
+Theorem c02_env_never_crossed_op : forall L e g o e' g' x,
+  MXInv (en_market e) -> Forall mev_u32 (en_queue e) -> Forall mev_vols (en_queue e) ->
+  eop_u32 o -> eop_vols o -> menv_apply L e g o = Ok (e', g', x) ->
+  MXInv (en_market e') /\ Forall mev_u32 (en_queue e') /\ Forall mev_vols (en_queue e').
+Proof. exact menv_apply_xinv. Qed.
+
+Theorem c02_env_new_market_uncrossed : forall t0 ticks m, market_new t0 ticks true = Ok m -> MXInv m.
+Proof. exact market_new_xinv. Qed.
+
+Theorem c02_env_touch_uncrossed : forall m a b,
+  MXInv m -> nth_error m a = Some b ->
+  resting Bid (map e_order (b_orders b)) <> [] -> resting Ask (map e_order (b_orders b)) <> [] ->
+  fst (bid_ask b) < snd (bid_ask b).
+Proof. exact mxinv_touch. Qed.
+
 Check c02_never_crossed : forall t0 tick s0 ops s xs,
   book_new t0 tick true = Ok s0 -> Forall op_u32 ops -> Forall op_vols ops -> ~ In ODisable ops ->
   run_outs s0 ops = Ok (s, xs) ->
@@ -113,3 +134,6 @@ Print Assumptions c02_views_agree.
 Print Assumptions c02_sentinels.
 Print Assumptions c02_never_crossed_step.
 Print Assumptions c02_never_crossed.
+Print Assumptions c02_env_never_crossed_op.
+Print Assumptions c02_env_new_market_uncrossed.
+Print Assumptions c02_env_touch_uncrossed.
